@@ -7,7 +7,7 @@ from vf.gen import pick_weighted
 from props import _b17 as U
 
 ID = "C46"
-THEOREMS = []
+THEOREMS = ["C46_total", "C46_sound", "C46_step", "C46_result"]
 MODEL_FILES = ["Blame.v"]
 MODELLED = ("blame.go: Blame/addBlames/finishNeeds/applyNeeds as the attribution function 'a line goes to the first parent "
             "(parent order, parents containing the path) where the line-diff oracle marks it Equal, every line to an "
